@@ -152,7 +152,7 @@ def _pairs_triples(tier, rng):
 
 def _random_trees(tier, rng):
     cases = []
-    n = 2000 if tier == 'quick' else 50000
+    n = 2000 if tier == 'quick' else 250000
     for i in range(n):
         depth = 1 + (i % 5)
         tree = SP.random_tree(rng, depth)
@@ -180,7 +180,7 @@ BOUNDED = [
           case_key=lambda case: case[2]),
     Stage('B1:random-trees-and-spellings', 'C01', _random_trees, _check_tree,
           'random trees of depth 1..5 over 12 binary operators, signs, %, 4 functions with empty arguments, array literals; 4 spelling styles '
-          '(minimal / redundant parentheses / whitespace / lower case); 2000 (quick) / 50000 (thorough)',
+          '(minimal / redundant parentheses / whitespace / lower case); 2000 (quick) / 250000 (thorough)',
           classify=_classify, max_report=50),
 ]
 
